@@ -43,11 +43,11 @@ type Node struct {
 	Args []*Node `json:"a,omitempty"`
 }
 
-func Lit(v V) *Node                  { return &Node{K: KLit, Val: &v} }
-func Const(name string) *Node        { return &Node{K: KConst, Name: name} }
-func Var(name string) *Node          { return &Node{K: KVar, Name: name} }
+func Lit(v V) *Node                    { return &Node{K: KLit, Val: &v} }
+func Const(name string) *Node          { return &Node{K: KConst, Name: name} }
+func Var(name string) *Node            { return &Node{K: KVar, Name: name} }
 func Op(name string, a ...*Node) *Node { return &Node{K: KOp, Name: name, Args: a} }
-func If(c, a, b *Node) *Node         { return &Node{K: KIf, Args: []*Node{c, a, b}} }
+func If(c, a, b *Node) *Node           { return &Node{K: KIf, Args: []*Node{c, a, b}} }
 
 func (n *Node) Clone() *Node {
 	if n == nil {
